@@ -604,6 +604,22 @@ def extract_memfun_class(incdir):
     return sorted(rows)
 
 
+def extract_bases(incdir):
+    """base classes, in declaration order, of the classes whose destruction order the models rely on"""
+    out = []
+    for cls in ("trackable_signal_with_accumulator", "slot_rep", "signal_impl"):
+        objs, err = clang_ast(cls, incdir)
+        found = None
+        for o in objs:
+            for n in find_all(o, lambda n: n.get("kind") == "CXXRecordDecl" and n.get("name") == cls and n.get("bases")):
+                found = [re.sub(r"^(?:sigc::)?(?:internal::)?", "", b.get("type", {}).get("qualType", "?")) for b in n["bases"]]
+                break
+            if found:
+                break
+        out.append((cls, found or []))
+    return out
+
+
 def extract_pp(incdir):
     """preprocessor conditionals of the library sources (header guards excluded) and the names that
     exist only when deprecated API is enabled"""
@@ -656,6 +672,7 @@ def generate(incdir, outpath):
     casts = extract_casts(incdir)
     sigconn = extract_signal_connect(incdir)
     mfclass = extract_memfun_class(incdir)
+    bases = extract_bases(incdir)
     mf_pass, mf_verdicts = extract_memfun_pass(incdir)
     L = []
     L.append("(* GENERATED by translate/cxx2coq.py from %s -- do not edit. *)" % REPO)
@@ -745,6 +762,10 @@ def generate(incdir, outpath):
     L.append("Definition gen_casts : list (string * string * string * string) := [")
     L.append(";\n".join("  (%s, %s, %s, %s)" % tuple(coq_str(x) for x in row) for row in casts))
     L.append("].")
+    L.append("(* base classes in declaration order (destruction runs in the reverse order) *)")
+    L.append("Definition gen_bases : list (string * list string) := [")
+    L.append(";\n".join("  (%s, [%s])" % (coq_str(c), "; ".join(coq_str(b) for b in bs)) for c, bs in bases))
+    L.append("].")
     L.append("(* bound mem_fun factories: cv-qualification of the method, class the functor is typed after *)")
     L.append("Definition gen_memfun_class : list (string * string) := [")
     L.append(";\n".join("  (%s, %s)" % (coq_str(cv), coq_str(c)) for cv, c in mfclass))
@@ -764,7 +785,7 @@ def generate(incdir, outpath):
             fh.write(text)
     return {"visitors": vis, "classes": {k: {"fields": v["fields"], "modes": sorted([hop_mode(o) for o in v["ops"]], key=lambda m: (m != "NoArgs", m)),
                                              "slices": [s for o in v["ops"] for s in o["slices"]]} for k, v in cls.items()},
-            "take": take, "casts": casts, "signal_connect": sigconn, "memfun_class": mfclass, "memfun_pass": [mf_pass, mf_verdicts], "globals": glob, "callsig": cs, "pp_conditionals": pp_conds, "deprecated_only": dep_only, "digest": hashlib.sha256(text.encode()).hexdigest()[:16], "changed": old != text}
+            "take": take, "casts": casts, "signal_connect": sigconn, "memfun_class": mfclass, "bases": bases, "memfun_pass": [mf_pass, mf_verdicts], "globals": glob, "callsig": cs, "pp_conditionals": pp_conds, "deprecated_only": dep_only, "digest": hashlib.sha256(text.encode()).hexdigest()[:16], "changed": old != text}
 
 
 if __name__ == "__main__":
